@@ -270,7 +270,7 @@ class _V:
             return run.tok("ret:%s.%d" % (fname, n), lambda: ["r"])
         if ret == "emptylist":
             return run.tok("ret:%s.%d" % (fname, n), lambda: [])
-        return {"None": None, "0": 0, "''": "", "False": False}[ret]
+        return {"None": None, "0": 0, "''": "", "False": False, "NotImplemented": NotImplemented, "Ellipsis": Ellipsis}[ret]
 
     # -- gates: suspension points owned by the harness (C11 cancellation, C12 schedules) ---------------
     def gate(self, kind, ident):
